@@ -22,6 +22,7 @@ package main
 import (
 	"bytes"
 	"fmt"
+	"google.golang.org/protobuf/runtime/protoiface"
 	"reflect"
 	"strconv"
 	"strings"
@@ -974,7 +975,43 @@ func (h *scacheHist) opMarshal(n *scacheNode, uc, det bool) {
 			c.Stat(fmt.Sprintf("marshal_uc%v_with_2plus_stale_caches", uc))
 		}
 	}
-	out, err := proto.MarshalOptions{UseCachedSize: uc, Deterministic: det, AllowPartial: true}.Marshal(m)
+	// every entry point of the marshaler: Marshal, MarshalAppend onto a buffer with and without spare capacity
+	// (a reused buf[:0] is the common production pattern), MarshalState
+	mo := proto.MarshalOptions{UseCachedSize: uc, Deterministic: det, AllowPartial: true}
+	var out []byte
+	var err error
+	switch fl := c.Intn(5); fl {
+	case 0, 1:
+		out, err = mo.Marshal(m)
+		c.Stat("marshal_api_Marshal")
+	default:
+		pre := c.Intn(4)
+		spare := 0
+		if fl != 2 {
+			spare = 1 + c.Intn(96)
+		}
+		buf := make([]byte, pre, pre+spare)
+		for i := range buf {
+			buf[i] = 0xa5
+		}
+		var full []byte
+		if fl == 4 {
+			var st protoiface.MarshalOutput
+			st, err = mo.MarshalState(protoiface.MarshalInput{Message: m.ProtoReflect(), Buf: buf})
+			full = st.Buf
+			c.Stat("marshal_api_MarshalState")
+		} else {
+			full, err = mo.MarshalAppend(buf, m)
+			c.Stat(fmt.Sprintf("marshal_api_MarshalAppend_spare%v", spare > 0))
+		}
+		if err == nil {
+			if len(full) < pre || !bytes.Equal(full[:pre], buf[:pre]) {
+				h.propFail("MarshalAppend does not preserve the prefix of its buffer", "marshal", n.path())
+			} else {
+				out = full[pre:]
+			}
+		}
+	}
 	c.Stat(fmt.Sprintf("op_marshal_uc%v_det%v", uc, det))
 	h.resync()
 	op := "M" + n.path() + ";" + Tok(uc)
